@@ -21,5 +21,15 @@ VX_STO(vx_stol, long, 2)
 VX_STO(vx_stoll, long long, 3)
 VX_STO(vx_stoul, unsigned long, 4)
 VX_STO(vx_stoull, unsigned long long, 5)
+extern "C" unsigned vx_ext_ufs_rec(const char* text, unsigned long len, int base, int* throws, unsigned long* pos);
+namespace souffle {
+inline unsigned vx_ufs_rec(const std::string& s, std::size_t* pos = 0, int base = 10) {
+    int t = 0; unsigned long p = 0;
+    unsigned v = vx_ext_ufs_rec(s.d, s.n, base, &t, &p);
+    if (t) { vx_throw(); return 0; }
+    if (pos) *pos = p;
+    return v;
+}
+}
 namespace souffle { inline bool isPrefix(const std::string& prefix, const std::string& element); }
 #endif
